@@ -224,4 +224,28 @@ def C4.narrowGetValueS {α : Type} {β : Type} (cast : β → α) (a : C4 β) (b
 def C3.narrowFromV3 {α : Type} {β : Type} (cast : β → α) (a : V3 β) : (V3 α) :=
   ⟨(cast a.x), (cast a.y), (cast a.z)⟩
 
+/-- extracted from the C++ template at T = Sym; 1 path(s) -/
+def C3.assign {α : Type} (a : V3 α) (b : V3 α) : (V3 α) :=
+  ⟨b.x, b.y, b.z⟩
+
+/-- extracted from the C++ template at T = Sym; 1 path(s) -/
+def C3.copyCtor {α : Type} (a : V3 α) : (V3 α) :=
+  ⟨a.x, a.y, a.z⟩
+
+/-- extracted from the C++ template at T = Sym; 1 path(s) -/
+def C4.assign {α : Type} (a : C4 α) (b : C4 α) : (C4 α) :=
+  ⟨b.r, b.g, b.b, b.a⟩
+
+/-- extracted from the C++ template at T = Sym; 1 path(s) -/
+def C4.copyCtor {α : Type} (a : C4 α) : (C4 α) :=
+  ⟨a.r, a.g, a.b, a.a⟩
+
+/-- extracted from the C++ template at T = Sym; 1 path(s) -/
+def C3.ctorElems {α : Type} (a : V3 α) : (V3 α) :=
+  ⟨a.x, a.y, a.z⟩
+
+/-- extracted from the C++ template at T = Sym; 1 path(s) -/
+def C4.ctorElems {α : Type} (a : C4 α) : (C4 α) :=
+  ⟨a.r, a.g, a.b, a.a⟩
+
 end ImathVerif.Gen
